@@ -366,6 +366,8 @@ def _hints_from_signature(obj: tp.Union[type, tp.Callable]) -> dict[str, type[tp
     except (TypeError, ValueError):  # pragma: no cover
         return {}
     hints = {}
+    # (An alias such as `tuple["UserId", int]` was not written in the module of its origin.)
+    module = None if tp.get_origin(obj) else getattr(obj, "__module__", None)
     for name, param in params.items():
         annotation = param.annotation
         if annotation is param.empty:
@@ -373,9 +375,7 @@ def _hints_from_signature(obj: tp.Union[type, tp.Callable]) -> dict[str, type[tp
             hints[name] = annotation
             continue
         if annotation.__class__ is str:
-            ref = refs.forwardref(
-                annotation, is_argument=True, module=getattr(obj, "__module__", None)
-            )
+            ref = refs.forwardref(annotation, is_argument=True, module=module)
             hints[name] = ref
             continue
         hints[name] = annotation  # pragma: no cover
